@@ -1,3 +1,4 @@
+import MaestroVerif.Lemmas.ConductorLemmas
 import MaestroVerif.Lemmas.ExecDemo
 import MaestroVerif.Lemmas.ExecLive
 import MaestroVerif.Lemmas.ExecFair
@@ -255,5 +256,37 @@ theorem C05_verdict_order (cfg : Cfg) (g : G) :
   refine ⟨fun h => (C05_verdict_cancelled cfg g).mpr (Or.inl h),
     fun h1 h2 => (C05_verdict_cancelled cfg g).mpr (Or.inr ⟨h1, h2⟩),
     fun h0 h1 h2 h3 => (C05_verdict_failure cfg g).mpr ⟨h0, h1, h2, h3⟩⟩
+
+/-! ### the conductor loop (`Model/Conductor.lean`, `Conductor.monitor_study`) -/
+
+/-- **the loop returns the first verdict other than RUNNING, and that verdict is the one of the
+state it stops in**; `conductor` / `maestro run -fg` exit with its value (`C05_exit_codes`).  A
+failed status query (C20) ends the loop by an exception instead. -/
+theorem C05_loop_returns_first_final (cfg : Cfg) (its : List Conductor.Iter) (s s' : Conductor.CS)
+    (ret : Ret) (h : Conductor.monitor cfg s its = (s', some ret)) :
+    ret = .raised ∨ ∃ v, ret = .status v ∧ v ≠ .RUNNING ∧ v = verdict cfg s'.g :=
+  Conductor.monitor_returns cfg its s s' ret h
+
+/-- every state the loop visits is a reachable state of the execution graph: the theorems about
+reachable states hold throughout a conductor run, cancel requests included -/
+theorem C05_loop_states_reachable {cfg : Cfg} (s : Conductor.CS) (it : Conductor.Iter)
+    (hr : Reachable cfg s.g)
+    (hwf : WFPoll (if it.lock && it.acquire then cancel s.g else s.g) it.answer) :
+    Reachable cfg (Conductor.iter cfg s it).1.g :=
+  Conductor.iter_reachable s it hr hwf
+
+/-- non-vacuity: the demo history as a conductor run - without a cancel request the loop stops in
+the fifth iteration with FAILURE (step 2 failed, its dependent 4 was swept); when the request
+arrives as a lock file in the fourth iteration the loop returns CANCELLED once the jobs drained -/
+example : (Conductor.monitor demoCfg (Conductor.start demoCfg)
+    [⟨false, false, ⟨.OK, []⟩⟩, ⟨false, false, ⟨.OK, [(1, some .FINISHED)]⟩⟩,
+     ⟨false, false, ⟨.OK, [(2, some .TIMEDOUT), (3, none)]⟩⟩, ⟨false, false, ⟨.NOJOBS, []⟩⟩,
+     ⟨false, false, ⟨.OK, [(3, some .FINISHED), (2, some .FAILED)]⟩⟩,
+     ⟨true, true, ⟨.OK, []⟩⟩]).2 = some (.status .FAILURE) ∧
+    (Conductor.monitor demoCfg (Conductor.start demoCfg)
+    [⟨false, false, ⟨.OK, []⟩⟩, ⟨false, false, ⟨.OK, [(1, some .FINISHED)]⟩⟩,
+     ⟨false, false, ⟨.OK, [(2, some .TIMEDOUT), (3, none)]⟩⟩, ⟨true, true, ⟨.NOJOBS, []⟩⟩,
+     ⟨false, false, ⟨.OK, [(3, some .FINISHED), (2, some .FAILED)]⟩⟩]).2 = some (.status .CANCELLED) := by
+  decide +kernel
 
 end MaestroVerif.C05
